@@ -1,3 +1,4 @@
-//! C20 — not built yet.
-use crate::run::Run;
+//! C20 — placeholder while the worker is built.
+use crate::run::{Run, Tier};
+pub fn worker(_tier: Tier, _seed: u64) -> crate::sup::CaseFn<'static> { Box::new(|_, _, _| {}) }
 pub fn run(_run: &Run) { eprintln!("C20: check not built yet"); std::process::exit(2); }
